@@ -43,6 +43,7 @@ fn rerun(w: &Value) -> Option<Outcome> {
         "c06_repairs" => Some(c06::run(w["input"]["grammar"].as_str()?, w["input"]["input"].as_str()?)),
         "c04_graph" => Some(c04::run(w["input"]["grammar"].as_str()?)),
         "c12_header" => Some(c12::run_header(w["input"]["text"].as_str()?)),
+        "c12_header_deep" => Some(c12::run_header_deep(w["input"]["nested"].as_u64()? as usize)),
         "c12_yacc" => Some(c12::run_yacc(w["input"]["text"].as_str()?)),
         "c12_lex" => Some(c12::run_lex(w["input"]["text"].as_str()?)),
         "c09_ids" => Some(c09::run(w["input"]["spec"].as_str()?, &w["input"]["map"].as_array()?.iter().map(|x| (x[0].as_str().unwrap_or("").to_string(), x[1].as_u64().unwrap_or(0) as u32)).collect::<Vec<_>>())),
@@ -78,7 +79,7 @@ fn search(unit: &str, tag: &str, tier: &str) -> Option<Value> {
         "c07_lr" | "c04_next" => c07::search(tag, tier),
         "c06_moves" | "c06_dijkstra" | "c06_cpct" | "c06_rank" | "c05_apply" | "c05_cactus" | "c05_traverse" => if tag.starts_with("C07") { c07::search(tag, tier).or_else(|| c06::search(tag, tier)) } else { c06::search(tag, tier).or_else(|| c07::search(tag, tier)) },
         "c12_header" => c12::search(tag, tier),
-        "c12_lex" | "c12_flags" | "c12_unescape" => c12::search_lex(tier),
+        "c12_lex" | "c12_flags" | "c12_unescape" | "c12_lexdef" => c12::search_lex(tier),
         "c12_yacc" | "c12_yacc2" | "c12_yacc3" => c12::search_yacc(tier),
         "c10_decls" => if tag.starts_with("C12") { c12::search_yacc(tier) } else { c10::search(tag, tier).or_else(|| c10r::search(tier)) },
         "c11_decl" if tag.starts_with("C12") => c12::search_lex(tier),
